@@ -36,6 +36,7 @@ class Eval:
         self.conds = []
         self.names = {}
         self.last_env = {}
+        self.bound = {}  # name -> every term ever bound to a local of that name (including branch-local lets)
 
     # ------------------------------------------------------------------ entry points
     def function(self, body, args=None, depth=0):
@@ -69,6 +70,7 @@ class Eval:
                 env[p["id"]] = ("param", p["name"])
             else:
                 env[p["id"]] = term if not path else ("proj", term, path)
+                self.bound.setdefault(p["name"], []).append(env[p["id"]])
             if "sub" in p:
                 self.bind_pat(p["sub"], term, env, default_param, path)
             return
